@@ -220,7 +220,7 @@ def write_evidence(mod, tier, seed, rec, wall, extra):
 	return ev
 
 
-def decide(mod, rec, harness_errors, dead_chunks, n_chunks):
+def decide(mod, rec, harness_errors, dead_chunks, n_chunks, replay=False):
 	"""-> (exit status, lines to print)"""
 	pid = mod.ID
 	lines = []
@@ -261,7 +261,8 @@ def decide(mod, rec, harness_errors, dead_chunks, n_chunks):
 		evaluations = sum(c["n"] for c in rec.classes.values())
 		if evaluations == 0:
 			reasons.append("no case executed")
-		for name, least in getattr(mod, "REQUIRED", {}).items():
+		for name, least in ({} if replay else getattr(mod, "REQUIRED",
+			{})).items():
 			if name.startswith("set:"):
 				got = len(rec.sets.get(name[4:], ()))
 			else:
@@ -269,7 +270,7 @@ def decide(mod, rec, harness_errors, dead_chunks, n_chunks):
 			if got < least:
 				reasons.append("required monitor %s observed %d < %d" % (name,
 					got, least))
-		if rec.distinct_nontrivial() < 2:
+		if rec.distinct_nontrivial() < 2 and not replay:
 			reasons.append("fewer than 2 non-trivial cases")
 		if reasons:
 			status = 2
@@ -334,7 +335,8 @@ def main(argv):
 		shutil.rmtree(tmpdir, ignore_errors=True)
 
 	wall = time.time() - t0
-	status, lines = decide(mod, rec, harness_errors, dead, len(chunks))
+	status, lines = decide(mod, rec, harness_errors, dead, len(chunks),
+		replay="--replay" in argv)
 	extra = {"tree_hash": th, "repo": REPO, "chunks": len(chunks),
 		"chunks_died_or_timed_out": dead, "harness_errors": len(harness_errors),
 		"notes": rec.notes[:20],
